@@ -31,7 +31,14 @@ class KeyGen:
     def __init__(self, rnd, mode=None):
         self.rnd = rnd
         self.mode = mode or rnd.choice(["var", "var", "fix2", "k32", "dense", "dense",
-                                        "var", "var", "fix2", "k32", "dense", "dense", "k40"])
+                                        "var", "var", "fix2", "k32", "dense", "dense", "k40", "comb", "comb"])
+        if self.mode == "comb":
+            # a prefix p followed by one byte of a COMB (ff, fe, fc, f8, f0, e0, c0, 80, 00 or its
+            # mirror 00, 01, 03, ...): below p the trie is a spine of branch nodes down to a
+            # leaf, on the right (or left) side all the way
+            self.comb_prefix = bytes(rnd.choice(ALPHA) for _ in range(rnd.randint(1, 2)))
+            self.comb = rnd.choice([[0xFF, 0xFE, 0xFC, 0xF8, 0xF0, 0xE0, 0xC0, 0x80, 0x00],
+                                    [0x00, 0x01, 0x03, 0x07, 0x0F, 0x1F, 0x3F, 0x7F, 0xFF]])
         if self.mode in ("k32", "k40"):
             # k40: keys LONGER than a hash (33..40 bytes): kv nodes whose packed key path
             # alone exceeds 32 bytes
@@ -51,6 +58,10 @@ class KeyGen:
 
     def key(self):
         rnd = self.rnd
+        if self.mode == "comb":
+            if rnd.random() < 0.15:
+                return bytes(rnd.choice(ALPHA) for _ in range(len(self.comb_prefix) + 1))
+            return self.comb_prefix + bytes([rnd.choice(self.comb)])
         if self.mode == "fix2":
             return bytes(rnd.choice(ALPHA) for _ in range(2))
         if self.mode == "dense":
@@ -117,6 +128,16 @@ def resolve_value(trie, spec, ctx=None):
         return trie.root_hash
     raw = trie.db.raw() if hasattr(trie.db, "raw") else trie.db
     return min(raw)  # deterministic choice of some stored node's hash
+
+
+def gen_ladder(rnd, nbytes=32):
+    """SCALE: a key and all its one-bit-flipped neighbours (8*nbytes + 1 keys): the branch of the
+    base key is a ladder of 8*nbytes + 1 nodes"""
+    base = int.from_bytes(bytes(rnd.randrange(256) for _ in range(nbytes)), "big")
+    ks = [base] + [base ^ (1 << i) for i in range(8 * nbytes)]
+    rnd.shuffle(ks)
+    ops = [["set", k.to_bytes(nbytes, "big").hex(), bytes([1 + i % 250]).hex()] for i, k in enumerate(ks)]
+    return {"ops": ops, "mode": "ladder"}
 
 
 def apply(trie, model, op, ctx=None):
@@ -196,15 +217,18 @@ class MinimalDB:
 
 
 def new_trie(ctx=None, minimal=False):
+    from trie.constants import BLANK_HASH
+
+    blank = bytes(bytearray(BLANK_HASH))      # equal to the blank hash, but not the same object
     if minimal:
         db = MinimalDB()
         if ctx is not None:
             ctx.count("tries_over_a_minimal_mapping")
-        return BinaryTrie(db), db
+        return BinaryTrie(db, blank), db
     db = RecordingDB()
     db.record = False
     db.checkers.append(append_only_spec(ctx))
-    return BinaryTrie(db), db
+    return BinaryTrie(db, blank), db
 
 
 def probes(rnd, model, kg=None, extra=3):
